@@ -150,3 +150,7 @@ Definition tl_task (i t : nat) : prog Z :=
 Definition slice {A : Type} (off len : nat) (l : list A) : list A := firstn len (skipn off l).
 Definition save_restore {A : Type} (offmul stride n : nat) (l : list A) : list A :=
   flat_map (fun k : nat => slice (offmul * k) stride l) (seq 0 n).
+
+(* ---- mjCModel::CopyList (mj_copySpec): every element of the source list is copied, its references are resolved in the
+   new model, and an element whose resolution throws is silently skipped *)
+Definition copy_list {A : Type} (resolves : A -> bool) (l : list A) : list A := filter resolves l.
